@@ -346,6 +346,79 @@ class Patcher(object):
                 return o["home"].__func__(cls)
             return cls(VROOT + "/home")
 
+        class VDirEntry(object):
+            def __init__(self, directory, name, is_dir):
+                self.name = name
+                self.path = directory + "/" + name
+                self._dir = is_dir
+
+            def is_dir(self, follow_symlinks=True):
+                return self._dir
+
+            def is_file(self, follow_symlinks=True):
+                return not self._dir
+
+            def is_symlink(self):
+                return False
+
+            def __fspath__(self):
+                return self.path
+
+        class VScan(object):
+            def __init__(self, entries):
+                self._it = iter(entries)
+
+            def __iter__(self):
+                return self
+
+            def __next__(self):
+                return next(self._it)
+
+            def __enter__(self):
+                return self
+
+            def __exit__(self, *a):
+                return False
+
+            def close(self):
+                pass
+
+        def _entries(vp):
+            fs = P.fs
+            pre = vp + "/"
+            names = sorted({q[len(pre):] for q in list(fs.files) + list(
+                fs.dirs) if q.startswith(pre) and "/" not in q[len(pre):]
+                and q != vp})
+            return [(n, (pre + n) in fs.dirs) for n in names]
+
+        def v_listdir(path="."):
+            proc, vp = P._served(path)
+            if proc is None:
+                return o["listdir"](path)
+            if proc.dead:
+                return []
+            proc.point(("listdir", vp))
+            if vp not in P.fs.dirs:
+                proc.observe(("listdir", vp, "ENOENT"))
+                raise FileNotFoundError(errno.ENOENT, "No such directory", vp)
+            ents = _entries(vp)
+            proc.observe(("listdir", vp, tuple(n for n, _ in ents)))
+            return [n for n, _ in ents]
+
+        def v_scandir(path="."):
+            proc, vp = P._served(path)
+            if proc is None:
+                return o["scandir"](path)
+            if proc.dead:
+                return VScan([])
+            proc.point(("scandir", vp))
+            if vp not in P.fs.dirs:
+                proc.observe(("scandir", vp, "ENOENT"))
+                raise FileNotFoundError(errno.ENOENT, "No such directory", vp)
+            ents = _entries(vp)
+            proc.observe(("scandir", vp, tuple(n for n, _ in ents)))
+            return VScan([VDirEntry(vp, n, d) for n, d in ents])
+
         def unsupported(name):
             def f(path=".", *a, **kw):
                 proc, vp = P._served(path)
@@ -370,7 +443,9 @@ class Patcher(object):
         os.fsync = v_fsync
         os.fdatasync = v_fsync
         pathlib.Path.home = classmethod(v_home)
-        for name in ("listdir", "scandir", "rmdir", "makedirs", "os_open"):
+        os.listdir = v_listdir
+        os.scandir = v_scandir
+        for name in ("rmdir", "makedirs", "os_open"):
             setattr(os, name.replace("os_", ""), unsupported(name))
 
     def uninstall(self):
